@@ -141,9 +141,17 @@ inductive Out where
 structure Item where
   id : Nat          -- caller's identifier (may repeat)
   ty : WType
-  created : Nat     -- clock value at creation (µs)
+  created : Int     -- `created_at` in µs on the model's clock (callers may pass any datetime: far past is negative)
+  tz : Bool         -- `created_at` is timezone-aware (legal for the dataclass; cannot be compared with `now()`)
   content : Nat     -- opaque content code; digesters may depend on it
   seq : Nat         -- ghost: how many items were ingested before this one
+  deriving Repr, DecidableEq
+
+/-- what the caller put into `Waste.created_at` -/
+inductive Stamp where
+  | now                 -- the default: the clock at creation
+  | at (us : Int)       -- an explicit naive datetime
+  | aware               -- a timezone-aware datetime (of the current instant)
   deriving Repr, DecidableEq
 
 structure Cfg where
@@ -271,9 +279,9 @@ def emergency (cfg : Cfg) (s : State) : State :=
       gPending := s.gPending }
 
 /-- the part of `ingest` before the auto-digest test -/
-def enqueue (cfg : Cfg) (s : State) (id : Nat) (ty : WType) (content : Nat) : State :=
+def enqueue (cfg : Cfg) (s : State) (id : Nat) (ty : WType) (content : Nat) (st : Stamp) : State :=
   let s1 := if s.queue.length ≥ cfg.maxQ then emergency cfg s else s
-  let it : Item := ⟨id, ty, s1.clock, content, s1.items.length⟩
+  let it : Item := ⟨id, ty, (match st with | .at us => us | _ => (s1.clock : Int)), st = .aware, content, s1.items.length⟩
   { s1 with queue := s1.queue ++ [it], items := s1.items ++ [it] }
 
 inductive Obs where
@@ -282,11 +290,12 @@ inductive Obs where
   | dead
   | digest (r : DigestRes)
   | removed (n : Nat)
+  | raised              -- the call raised an exception to its caller (control returns; the lock is released)
 
 /-- `ingest`: emergency digest at capacity, append, auto-digest at the threshold.  `_auto_digest` calls `digest`
     while `ingest` still holds the lock: with a non-reentrant lock that call never returns. -/
-def ingest (cfg : Cfg) (s : State) (id : Nat) (ty : WType) (content : Nat) : State × Obs :=
-  let s2 := enqueue cfg s id ty content
+def ingest (cfg : Cfg) (s : State) (id : Nat) (ty : WType) (content : Nat) (st : Stamp) : State × Obs :=
+  let s2 := enqueue cfg s id ty content st
   if s2.queue.length ≥ cfg.autoThr then
     if cfg.reent then
       ((digestCore cfg s2 (sliceCount s2.queue.length (some ((s2.queue.length / 2 : Nat) : Int))) true).1, .ok)
@@ -297,16 +306,19 @@ def digest (cfg : Cfg) (s : State) (k : Option Int) : State × Obs :=
   let r := digestCore cfg s (sliceCount s.queue.length k) false
   (r.1, .digest r.2)
 
-def keeps (cfg : Cfg) (now : Nat) (it : Item) : Bool := decide (((now : Int) - (it.created : Int)) < cfg.retention)
+def keeps (cfg : Cfg) (now : Nat) (it : Item) : Bool := decide (((now : Int) - it.created) < cfg.retention)
 
+/-- `autophagy`: `now - w.created_at` raises TypeError on a timezone-aware `created_at` (naive `now`): the list
+    comprehension is abandoned before `_queue` is assigned, the `with` block releases the lock, nothing changed. -/
 def autophagy (cfg : Cfg) (s : State) : State × Obs :=
+  if s.queue.any (·.tz) then (s, .raised) else
   let kept := s.queue.filter (keeps cfg s.clock)
   let gone := s.queue.filter (fun it => !keeps cfg s.clock it)
   ({ s with queue := kept, expiredRet := s.expiredRet + gone.length, gExpired := s.gExpired ++ gone },
    .removed gone.length)
 
 inductive Op where
-  | ingest (id : Nat) (ty : WType) (content : Nat)
+  | ingest (id : Nat) (ty : WType) (content : Nat) (st : Stamp)
   | digest (k : Option Int)
   | autophagy
   | advance (us : Nat)
@@ -317,7 +329,7 @@ def step (cfg : Cfg) (s : State) (op : Op) : State × Obs :=
   if s.dead then (s, .dead)
   else
     match op with
-    | .ingest id ty c => ingest cfg s id ty c
+    | .ingest id ty c st => ingest cfg s id ty c st
     | .digest k => digest cfg s k
     | .autophagy => autophagy cfg s
     | .advance us => ({ s with clock := s.clock + us }, .ok)
